@@ -164,6 +164,20 @@ PROPS = {
         rule="the C16 histories (fills and hits in any order at distinct increasing clock readings, flushes, restarts after a flush, space pressure from later fills) judged by a last-use monitor kept by the harness side alone: at every pass, no entry removed may have a later last access than one that stays, and none with a known last access may go while one with an unknown one stays; non-trivial = at least one entry purged; distinct = distinct case encodings",
         classify=lambda row: "lim-history",
     ),
+    "C19": dict(
+        family="cfg", xcheck=120, realtime=True, rt_workers=16,
+        proof_files=["Proofs/C19Proofs.v"],
+        trusted_base=TB_COMMON + ["proxy/verif_export.go VerifDumpRules (reads the unexported fields of the parsed rules)",
+                                  "YAML and JSON text parsing are Go libraries (gopkg.in/yaml.v2, encoding/json's tokenizer): the harness hands the model the trees they produce for each text; fmt's %v printing of YAML scalars and keys, url.Parse's verdict on each destination and datasize's on each size string are likewise computed by the harness and handed over",
+                                  "the reload sequences drive the real rrrouter binary (go build of cmd/richie-request-router, no tag) with a mapping file and SIGHUP; what is in force is read off probe requests against a local origin stub",
+                                  "the rule-swap runs depend on the scheduler: they can show a request handled under two versions, not prove there is none (that is the structural argument: the handler takes the rules once, Router.Pinned)"],
+        assumptions=ASSUME_COMMON + ["object keys are ASCII (encoding/json also folds a few non-ASCII letters) and no object has two keys that differ only in case for a struct-valued field",
+                                     "YAML mappings whose keys print alike (1 and \"1\") are not generated: yamlconfig's clean-up then depends on Go's map order",
+                                     "an id kept across a reload keeps its directory: a changed path for an existing id is not generated",
+                                     "equal SHA-1 checksums are taken to mean equal documents"],
+        rule="(documents) 20 pinned texts (empty, null, arrays, unterminated, YAML idioms: no/~/10.0/quoted numbers, flow maps, nested retry rules three deep, duplicate cache ids, caches of the wrong type, key-case variants) + random documents of 1-4 rules over every field (methods, host, scheme, enabled, type, hostheader, internal, recompression, cache, force_revalidate, request/response header maps with padded names, null and numeric values, restart_on_redirect, retry_rule to depth 3, unknown fields) and 0-2 caches, 65% of them damaged in 1-3 places (field dropped, value replaced by one of 15 wrong-typed or odd values, key re-cased, list element duplicated, string replaced by one of 20 invalid paths/methods/types/destinations/sizes); each rendered as JSON and as YAML (yaml.Marshal), both through the real ParseRules and ParseStorageConfigs, accepted rules dumped field by field, 3 requests routed through the real server under each accepted spelling; (reloads) 24/160 sequences of 3-7 documents against the real binary: each a new version with a random subset of three caches, 45% damaged (rules of the wrong type, bad wildcard, bad destination, caches not a list, duplicate cache, junk, file missing, same text again), always ending with a good one; (rule swaps) 2 runs of 8 x 1500/15000 requests while SetRules flips between two rule sets; non-trivial = all; distinct = distinct case encodings",
+        classify=lambda row: "reload" if row["case"].startswith("( s72656c6f6164 ") else ("swap" if row["case"].startswith("( s73776170 ") else "document"),
+    ),
     "C04": dict(
         family="route",
         proof_files=["Proofs/C04Proofs.v", "Proofs/HeaderFacts.v", "Spec/SpecC04.v", "Proofs/RouteProofs.v", "Proofs/ForwardProofs.v"],
